@@ -78,7 +78,18 @@ func (b hpBlock) encode(t *ref.Table) []byte {
 	return out
 }
 
+var valCache = map[int]string{}
+
 func valOfLen(n int) string {
+	if v, ok := valCache[n]; ok {
+		return v
+	}
+	v := valOfLenSlow(n)
+	valCache[n] = v
+	return v
+}
+
+func valOfLenSlow(n int) string {
 	const pat = "0123456789abcdefghijklmnopqrstuvwxyz-_./"
 	var sb strings.Builder
 	for i := 0; i < n; i++ {
